@@ -45,17 +45,19 @@ func secMatrix(seed uint64) {
 	scert, skey := selfSigned("urn:verif:server")
 	ccert, ckey := selfSigned("urn:verif:client")
 	type cfg struct {
-		name  string
-		pairs []secPair
-		key   bool
+		name   string
+		pairs  []secPair
+		key    bool
+		noAuth bool // no EnableAuthMode option: the endpoints carry no user token policies
 	}
 	cfgs := []cfg{
-		{"none-only", []secPair{{"None", 1}}, true},
-		{"none-only-nokey", []secPair{{"None", 1}}, false},
-		{"b256s256-signenc-only", []secPair{{"Basic256Sha256", 3}}, true},
-		{"mixed", []secPair{{"None", 1}, {"Basic256Sha256", 2}, {"Basic256Sha256", 3}}, true},
-		{"nothing-enabled", nil, true},
-		{"aes128-signenc-only", []secPair{{"Aes128_Sha256_RsaOaep", 3}}, true},
+		{"none-only", []secPair{{"None", 1}}, true, false},
+		{"none-only-nokey", []secPair{{"None", 1}}, false, false},
+		{"b256s256-signenc-only", []secPair{{"Basic256Sha256", 3}}, true, false},
+		{"mixed", []secPair{{"None", 1}, {"Basic256Sha256", 2}, {"Basic256Sha256", 3}}, true, false},
+		{"nothing-enabled", nil, true, false},
+		{"aes128-signenc-only", []secPair{{"Aes128_Sha256_RsaOaep", 3}}, true, false},
+		{"mixed-no-auth-mode", []secPair{{"None", 1}, {"Basic256Sha256", 3}}, true, true},
 	}
 	clients := []secPair{{"None", 1}, {"Basic256Sha256", 2}, {"Basic256Sha256", 3}, {"Basic128Rsa15", 3}, {"Aes128_Sha256_RsaOaep", 3}, {"Aes256_Sha256_RsaPss", 2}}
 	for _, c := range cfgs {
@@ -63,7 +65,9 @@ func secMatrix(seed uint64) {
 		for _, p := range c.pairs {
 			opts = append(opts, server.EnableSecurity(p.Policy, p.Mode))
 		}
-		opts = append(opts, server.EnableAuthMode(ua.UserTokenTypeAnonymous))
+		if !c.noAuth {
+			opts = append(opts, server.EnableAuthMode(ua.UserTokenTypeAnonymous))
+		}
 		if c.key {
 			opts = append(opts, server.Certificate(scert), server.PrivateKey(skey))
 		}
